@@ -211,8 +211,8 @@ def loadChild (c : PV α) : Except Err (Option (Comp α)) := do
   | .str "PSWITCH" =>
     some <$> mkComp .pswitch cname ([("rs", rs), ("ig", ig)] ++ lim ++ [("iis", iis), ("rt", rt)])
   | .str "RECTIFIER" =>
-    let _vdrop ← getOpt cp "vdrop" zero      -- read, never passed (system.py 275-285)
-    some <$> mkComp .rectifier cname ([("rs", rs), ("ig", ig), ("iq", iq)] ++ lim ++ [("rt", rt)])
+    let vdrop ← getOpt cp "vdrop" zero
+    some <$> mkComp .rectifier cname ([("vdrop", vdrop), ("rs", rs), ("ig", ig), ("iq", iq)] ++ lim ++ [("rt", rt)])
   | _ => pure none
 
 /-- the `childs` loop of one block -/
